@@ -29,7 +29,7 @@ Definition cert_cut_hyp (c : mbi_class) : bool :=
 Definition wf_class (c : mbi_class) : bool :=
   nodupb (c_mixins c) && (0 <=? c_type c) && (c_type c <? 64) && has c MixinApp &&
   negb (has c MixinTrustZone && has c MixinTrustZoneMandatory) &&
-  (wf_plain_crc c || wf_v1 c || wf_v21 c || kind_encrypted c || negb (supported c)) &&
+  (wf_plain_crc c || wf_v1 c || wf_v21 c || wf_enc c || negb (supported c)) &&
   (if (kind_signed_v1 c || kind_signed_v21 c) && negb (has c MixinRelocTable) then cert_cut_hyp c else true).
 Lemma wf_class_all : forallb wf_class gen_compositions = true.
 Proof. vm_compute. reflexivity. Qed.
@@ -40,7 +40,12 @@ Definition count_offers (p : mbi_class -> bool) : nat :=
   length (filter (fun o => match comp_of o with Some c => p c | None => false end) (flat_map offers_of gen_families)).
 Definition kind_counts : nat * nat * nat * nat * nat * nat :=
   (count_offers (fun _ => true), count_offers wf_plain_crc, count_offers wf_v1, count_offers wf_v21,
-   count_offers kind_encrypted, count_offers (fun c => negb (supported c))).
+   count_offers wf_enc, count_offers (fun c => negb (supported c))).
+(* the five kinds partition the offers of the database: together with wf_class_all (every composition is of some kind)
+   the equality of the sums says that no offer is counted twice *)
+Lemma kinds_partition_offers :
+  let '(t, p, v1, v21, e, u) := kind_counts in t = (p + v1 + v21 + e + u)%nat.
+Proof. vm_compute. reflexivity. Qed.
 
 (* ------------------------------------------------------------------ class selection at parse time *)
 Definition subset_mixins (a b : list mixin) : bool := forallb (fun m => existsb (mixin_eqb m) b) a.
